@@ -59,7 +59,105 @@ type scanEval struct {
 	funcs   map[string]*ast.FuncDecl
 	out     [256][]string // per byte value: the outcomes (one per opaque path)
 	limit   int
+	depth   int
 	aborted string
+}
+
+// inlineTarget: x is a call of a function or method declared in the same file
+// whose body branches, which returns one value and receives the current byte in
+// exactly one parameter; every other argument is an expression without calls.
+// Returns the declaration, the name of its byte parameter and the environment
+// binding its other parameters (and receiver) to the argument texts.
+func (e *scanEval) inlineTarget(x ast.Expr, env map[string]string) (*ast.FuncDecl, string, map[string]string) {
+	call, ok := x.(*ast.CallExpr)
+	if !ok || e.depth > 3 {
+		return nil, "", nil
+	}
+	var fd *ast.FuncDecl
+	var args []ast.Expr
+	switch f := call.Fun.(type) {
+	case *ast.Ident:
+		if d := e.funcs[f.Name]; d != nil && d.Recv == nil {
+			fd = d
+		}
+	case *ast.SelectorExpr:
+		n := 0
+		for k, d := range e.funcs {
+			if strings.HasSuffix(k, "."+f.Sel.Name) && d.Recv != nil {
+				fd = d
+				n++
+			}
+		}
+		if n != 1 {
+			return nil, "", nil
+		}
+		args = append(args, f.X)
+	}
+	if fd == nil || fd.Body == nil || fd.Type.Results == nil || len(fd.Type.Results.List) != 1 || len(fd.Type.Results.List[0].Names) > 1 {
+		return nil, "", nil
+	}
+	branches := false
+	ast.Inspect(fd.Body, func(n ast.Node) bool {
+		switch n.(type) {
+		case *ast.IfStmt, *ast.SwitchStmt:
+			branches = true
+		case *ast.ForStmt, *ast.RangeStmt, *ast.FuncLit, *ast.GoStmt, *ast.DeferStmt, *ast.LabeledStmt, *ast.BranchStmt:
+			branches = false
+			return false
+		}
+		return true
+	})
+	if !branches {
+		return nil, "", nil
+	}
+	args = append(args, call.Args...)
+	var params []string
+	if fd.Recv != nil {
+		if len(fd.Recv.List) != 1 || len(fd.Recv.List[0].Names) != 1 {
+			return nil, "", nil
+		}
+		params = append(params, fd.Recv.List[0].Names[0].Name)
+	}
+	for _, f := range fd.Type.Params.List {
+		if len(f.Names) == 0 {
+			return nil, "", nil
+		}
+		for _, n := range f.Names {
+			params = append(params, n.Name)
+		}
+	}
+	if len(params) != len(args) {
+		return nil, "", nil
+	}
+	cParam := ""
+	henv := map[string]string{}
+	for i, a := range args {
+		hasCall := false
+		ast.Inspect(a, func(n ast.Node) bool {
+			if _, ok := n.(*ast.CallExpr); ok {
+				hasCall = true
+			}
+			return true
+		})
+		if hasCall {
+			return nil, "", nil
+		}
+		if id, ok := a.(*ast.Ident); ok && id.Name == e.cName {
+			if cParam != "" {
+				return nil, "", nil
+			}
+			cParam = params[i]
+			if params[i] != e.cName {
+				henv[params[i]] = e.cName
+			}
+			continue
+		}
+		henv[params[i]] = subst(exprString(e.fset, a), env)
+	}
+	if cParam == "" {
+		return nil, "", nil
+	}
+	return fd, cParam, henv
 }
 
 // A path's key is its trace, followed by "\x00" and the values of the local
@@ -279,6 +377,34 @@ func (e *scanEval) run(stmts []ast.Stmt, set byteSet, key0 string) (fall map[str
 				res := ""
 				if len(n.Results) > 0 {
 					res = str(n.Results[0])
+				}
+				// `return s.helper(c, next)`: a branching helper of the same file that
+				// receives c is interpreted in place, its parameters bound to the arguments
+				if len(n.Results) == 1 {
+					if fd, cParam, henv := e.inlineTarget(n.Results[0], env); fd != nil {
+						sub := &scanEval{fset: e.fset, cName: cParam, funcs: e.funcs, limit: e.limit, depth: e.depth + 1}
+						hfall := sub.run(fd.Body.List, s, joinKey("", henv))
+						e.limit = sub.limit
+						if sub.aborted != "" {
+							e.aborted = sub.aborted
+						}
+						for k, fs := range hfall {
+							ht, _ := splitKey(k)
+							for v := range fs {
+								if fs[v] {
+									sub.out[v] = append(sub.out[v], ht+" ; <end>")
+								}
+							}
+						}
+						for v := range s {
+							if s[v] {
+								for _, o := range sub.out[v] {
+									e.out[v] = append(e.out[v], tr+o)
+								}
+							}
+						}
+						continue
+					}
 				}
 				for v := range s {
 					if s[v] {
